@@ -87,9 +87,7 @@ func c05r7(c *RC) {
 		inKey := map[string]bool{}
 		keyHasSlice := false
 		ast.Inspect(lit, func(n ast.Node) bool {
-			if sel, ok := n.(*ast.SelectorExpr); ok && expr(sel.X) == partP {
-				inKey[sel.Sel.Name] = true
-			}
+			_ = n // partitioner fields count only as whole key components (below)
 			if id, ok := n.(*ast.Ident); ok {
 				if o := pk.Info.Uses[id]; o != nil && o.Type() != nil && typeString(o.Type()) == "Slice" {
 					keyHasSlice = true
@@ -97,6 +95,17 @@ func c05r7(c *RC) {
 			}
 			return true
 		})
+		// a field is in the key only as a component's whole value (part.F): a
+		// predicate over it (part.F != nil) maps all its non-zero values to one key
+		for _, el := range lit.Elts {
+			v := el
+			if kv, ok := el.(*ast.KeyValueExpr); ok {
+				v = kv.Value
+			}
+			if sel, ok := ast.Unparen(v).(*ast.SelectorExpr); ok && expr(sel.X) == partP {
+				inKey[sel.Sel.Name] = true
+			}
+		}
 		// guards: conjuncts of enclosing if conditions
 		zero := map[string]bool{}
 		for _, anc := range pathTo(fn.Body, ix) {
